@@ -18,6 +18,8 @@
    order, and checks that the labels are the shortest hop counts (Graph!SpecDist). *)
 EXTENDS GraphClasses, SequencesExt
 
+CONSTANTS PreKinds     \* subset of {"none", "stale"}: labels the nodes carry before the sweep (a Graph object may be
+                       \* explored several times, or its nodes may already have a "Dist" attribute)
 CONSTANTS SparseN, SparseMaxE   \* additionally all graphs on SparseN vertices with at most SparseMaxE edges (0: none)
 VARIABLES V, E, start, sd, que, explored, dist, st, err, steps
 vars == <<V, E, start, sd, que, explored, dist, st, err, steps>>
@@ -27,10 +29,13 @@ Orders(S) == LET base == SetToSeq(S)
 
 Sparse == IF SparseN = 0 THEN {} ELSE
           {G(VSet(SparseN), X) : X \in {Y \in SUBSET AllPairs(VSet(SparseN)) : Cardinality(Y) <= SparseMaxE}}
+\* an arbitrary left-over label: wrong for every sweep of the domain (hop counts are < 7)
+StaleLabel(v) == 9 + (v % 3)
 Init == /\ \E x \in Domain \cup Sparse : V = x.v /\ E = x.e
         /\ start \in V
         /\ sd = SpecDist(V, E, start)
-        /\ que = <<>> /\ explored = {} /\ dist = [v \in V |-> None]
+        /\ que = <<>> /\ explored = {}
+        /\ \E pre \in PreKinds : dist = [v \in V |-> IF pre = "stale" THEN StaleLabel(v) ELSE None]
         /\ st = "init" /\ err = FALSE /\ steps = 0
 
 \* Graph_BF_Visitor::addEdges_
@@ -80,10 +85,13 @@ QueueShape == /\ Len(que) <= 2
 QueuedEdgesTouchExplored ==
   st = "loop" => \A i \in 1..Len(que) : \A k \in 1..Len(que[i]) :
                     \E x \in Ends(que[i][k]) : x \in explored
-LabelsAreShortest == /\ explored = {v \in V : dist[v] # None}
-                     /\ \A v \in explored : dist[v] = sd[v]
+\* GraphDistVisitor::exploreNode relabels a vertex when the *visitor* has not explored it yet
+\* (explored_ is per sweep), never looking at an old label: whatever the nodes carried before,
+\* every explored vertex ends with its hop count from THIS start.
+LabelsAreShortest == \A v \in explored : dist[v] = sd[v]
+UntouchedKeepLabel == \A v \in V \ explored : dist[v] = None \/ dist[v] = StaleLabel(v)
 AtEnd == st = "done" => /\ explored = Reach(V, E, start)
-                        /\ dist = sd
+                        /\ \A v \in explored : dist[v] = sd[v]
 Terminates == steps <= 2 * Cardinality(E)     \* with deadlock checking on: every run reaches "done"
 \* the two-level deque is observably one FIFO: the sources' labels never decrease along it
 Flat == IF que = <<>> THEN <<>> ELSE IF Len(que) = 1 THEN que[1] ELSE que[1] \o que[2]
